@@ -20,6 +20,12 @@ class Unknown(Exception):
     pass
 
 
+class Fork(Unknown):
+    """a helper call with several outcomes that differ in memory: the caller's path is split, one continuation per outcome"""
+    def __init__(self, alts):
+        Unknown.__init__(self, 'helper with several outcomes'); self.alts = alts
+
+
 def alpha(e):
     """alpha channel of a pixel expression: the same expression over the alphas"""
     if e is None:
@@ -326,7 +332,7 @@ class Exec:
         results = []
         limit = [0]
 
-        def walk(b, state, prev, visited):
+        def walk(b, state, prev, visited, start_idx=0):
             limit[0] += 1
             if limit[0] > 400:
                 raise Unknown('too many paths in %s' % f.name)
@@ -334,7 +340,9 @@ class Exec:
             env = dict(env); mem = dict(mem); assum = dict(assum); writes = list(writes); notes = list(notes)
             self.f = f; self.env = env; self.mem = mem; self.argvals = argvals; self.writes = writes; self.assum = assum
             blk = f.blocks[b]
-            for x in blk.insts:
+            for idx, x in enumerate(blk.insts):
+                if idx < start_idx:
+                    continue
                 if x.op == 'phi':
                     for a, bb in zip(x.a, x.d['bb']):
                         if bb == prev:
@@ -344,7 +352,15 @@ class Exec:
                     results.append((assum, self.val(x.a[0]) if x.a else None, writes, notes, dict(mem))); return
                 if x.op in ('br', 'switch'):
                     break
-                self.step(x)
+                try:
+                    self.step(x)
+                except Fork as fk:
+                    for a_, v_, m_, n_ in fk.alts:
+                        e2 = dict(env); e2[x.i] = v_
+                        m2 = dict(mem); m2.update(m_)
+                        a2 = dict(assum); a2.update(a_ or {})
+                        walk(b, (e2, m2, a2, writes, notes + list(n_ or [])), prev, visited, idx + 1)
+                    return
                 self.f = f; self.env = env; self.mem = mem; self.argvals = argvals; self.writes = writes; self.assum = assum
             t = blk.term
             succs = list(blk.succ)
@@ -664,7 +680,8 @@ class Exec:
                 env[x.i] = gv; return
         if all(not (set(m) & visible) or all(m.get(k) == self.mem.get(k) for k in visible) for a, v, w, n, m in res):
             env[x.i] = ('cases', [(a, v, n) for a, v, w, n, m in res]); return
-        raise Unknown('helper %s has paths whose effects the general path does not subsume' % name)
+        # outcomes that differ in what they leave in memory: split the caller's path
+        raise Fork([(a, v, {k: m[k] for k in visible if k in m}, n) for a, v, w, n, m in res])
 
     def _def(self, o):
         f = self.f
@@ -1029,7 +1046,7 @@ def masked_source_ok(P, u, voc, helper_names):
 
 
 def r9_simd_combiners(ck, P):
-    R = ck.rule('C02-R9', 'every SSE2/MMX combiner computes s*Fa + d*Fb with the Porter-Duff factors of the operator slot it is registered under (unified and component alpha; rounding not modelled)', floor=30)
+    R = ck.rule('C02-R9', 'every SSE2/MMX combiner computes s*Fa + d*Fb with the Porter-Duff factors of the operator slot it is registered under (unified and component alpha; rounding not modelled)', floor=44)
     ops, N = algebra.operators(P)
     inv = {v: k for k, v in ops.items()}
     ss = algebra.slot_stores(P)
@@ -1120,7 +1137,7 @@ def derive_combine32(P, cname='pixman-combine32.c'):
 
 
 def r4_c_combiners(ck, P):
-    R = ck.rule('C01-R4', 'every 8-bit C combiner of pixman-combine32.c (the ones SSE2 shadows in every test run) computes s*Fa + d*Fb with the factors of the operator it is registered under, over the pixel primitives of pixman-combine32.h', floor=20)
+    R = ck.rule('C01-R4', 'every 8-bit C combiner of pixman-combine32.c (the ones SSE2 shadows in every test run) computes s*Fa + d*Fb with the factors of the operator it is registered under, over the pixel primitives of pixman-combine32.h', floor=25)
     ops, N = algebra.operators(P)
     inv = {v: k for k, v in ops.items()}
     S_, u, loops = derive_combine32(P)
@@ -1240,7 +1257,7 @@ class RExec(Exec):
 
 def r10_composite_bodies(ck, P):
     P0 = P
-    R = ck.rule('C02-R10', 'composite fast-path routines whose bodies are written in the helper vocabulary compute the Porter-Duff result of the operator/opacity of every table entry they are registered for (shortcut branches included)', floor=85)
+    R = ck.rule('C02-R10', 'composite fast-path routines whose bodies are written in the helper vocabulary compute the Porter-Duff result of the operator/opacity of every table entry they are registered for (shortcut branches included)', floor=93)
     from . import tables
     C = __import__('pxv.consts', fromlist=['x']).fast_path_flags()
     ops, N = algebra.operators(P)
